@@ -269,11 +269,9 @@ def explore(run):
             shards.append(("K", order, VAL_KINDS if k <= full_k else VAL_KINDS_SMALL))
     depth = 4 if run.thorough() else 3
     for name in initial_states():
-        # quick: the bare constructor is the same state as the empty simfile (one step is enough to show it works),
-        # corpus states are explored one step less deep; thorough: full depth everywhere
-        d = depth
-        if not run.thorough():
-            d = 1 if name == "SSCSimfile()" else (depth - 1 if "shortened" in name else depth)
+        # the bare constructor is the same state as the empty simfile (one step is enough to show it works);
+        # corpus states (large objects) are explored one step less deep than the empty and blank simfiles
+        d = 1 if name == "SSCSimfile()" else (depth - 1 if "shortened" in name else depth)
         shards.append(("B", name, None, 0))
         for i in range(len(OPS) + 1):  # + the 'serialize' operation
             shards.append(("B", name, i, d))
@@ -292,7 +290,7 @@ def explore(run):
     run.rule = (
         f"A: every string of length <= {amax} over {SIGMA!r} in {len(CONTEXTS)} SSC contexts; "
         f"K: every ordering of <= {small_k} chart keys from {CHART_KEYS} x NOTES/NOTES2 at every position x notes values {NOTES_VALUES!r} x values per key from {VAL_KINDS!r} (<= {full_k} keys) or {VAL_KINDS_SMALL!r} (more keys); "
-        f"B: breadth-first edit histories of depth <= {depth} (quick: corpus states {depth - 1}, bare constructor 1) over {len(OPS)} operations + serialize from {len(initial_states())} initial states, state matching on content, order and string identity. "
+        f"B: breadth-first edit histories of depth <= {depth} (corpus states {depth - 1}, bare constructor 1) over {len(OPS)} operations + serialize from {len(initial_states())} initial states, state matching on content, order and string identity. "
         "Non-trivial = metacharacter value / any chart-alphabet case / state with a chart or None."
     )
     run.assumptions = [
